@@ -174,3 +174,112 @@ def enc_tmp_message(group: bool, request_id: int, dest_ip: bytes, src_ip: bytes,
     body = request_id.to_bytes(4, "big") + bytes(dest_ip) + bytes(src_ip) + bytes(text_raw)
     flags = 0x80 if confirmed else 0x00
     return enc_hdap(TMP_SERVICE, bytes([flags, TMP_GROUP_MESSAGE if group else TMP_PRIVATE_MESSAGE]), body, reliable=reliable)
+
+
+# ------------------------------------------------------------- other HDAP services (round 7: PDUs that carry radio addresses / ids)
+#
+#   RCP  = service 0x02, LITTLE endian opcode and length; LP = service 0x08, TMP = service 0x09: big endian opcode and length.
+#   Every form below is one the Hytera ADK documents and whose layout the library's parser implements; ``ids`` are the 4-octet
+#   address / id slots of the form exactly as they go on the wire (the caller decides which radio's octets, in which order, go
+#   there), ``m`` is a small integer that selects the remaining enumerated fields from their documented values.
+
+RCP_SERVICE, LP_SERVICE = 0x02, 0x08
+_GPS = [b"A183648261015N4718.8051E01854.43870.1121", b"A" + b"\x00" * 12 + b"N5003.8771E01426.5302" + b"\x00" * 6,
+        b"V101500010124S0000.0000W00000.0000" + b"\x00" * 6]
+_TMP_RESULTS = [0, 1, 3, 4, 5, 6, 7, 8, 9, 10, 11, 12]
+
+
+def _id(ids, i) -> bytes:
+    v = bytes(ids[i % len(ids)])
+    assert len(v) == 4
+    return v
+
+
+def _rcp_body(form: str, ids, m: int, blob: bytes) -> Tuple[int, bytes]:
+    le2 = lambda v: int(v).to_bytes(2, "little")
+    if form == "call_request":
+        return 0x0841, bytes([m % 16]) + _id(ids, 0)
+    if form == "call_reply":
+        return 0x8841, bytes([m % 2])
+    if form == "repeater_broadcast_transmit_status":
+        return 0xB845, le2(m % 2) + le2((m // 2) % 16) + le2([0, 1, 2, 3, 4, 5, 6, 7, 0x1F][m % 9]) + le2(m % 16) + _id(ids, 0) + _id(ids, 1)
+    if form == "broadcast_message_configuration_request":
+        return 0x1847, bytes([m % 8, 0, 0, 0, 0, 0, 0, 0])
+    if form == "broadcast_message_configuration_reply":
+        return 0x8847, bytes([m % 2])
+    if form == "radio_id_ip_query_request":
+        return 0x0452, bytes([m % 2])
+    if form == "radio_id_query_reply":
+        return 0x8452, bytes([m % 2, 0]) + _id(ids, 0)
+    if form == "radio_ip_query_reply":
+        return 0x8452, bytes([m % 2, 1]) + _id(ids, 0)
+    if form == "broadcast_status_configuration_request":
+        return 0x10C9, bytes([2]) + _id(ids, 0)
+    if form == "broadcast_status_configuration_reply":
+        return 0x80C9, bytes([m % 2])
+    if form == "send_talker_alias_request":
+        alias = blob[:31]
+        return 0x0852, bytes([m % 16]) + _id(ids, 0) + _id(ids, 1) + bytes([(m // 16) % 4, len(alias)]) + alias
+    if form == "send_talker_alias_reply":
+        return 0x8852, bytes([m % 2, (m // 2) % 16]) + _id(ids, 0) + _id(ids, 1)
+    if form == "zone_and_channel_operation_request":
+        return 0x00C4, bytes([m % 2]) + _id(ids, 0)
+    if form == "zone_and_channel_operation_reply":
+        return 0x80C4, _id(ids, 0) + _id(ids, 1) + _id(ids, 0)
+    if form == "status_change_notification_request":
+        return 0x10C7, bytes([2]) + _id(ids, 0)
+    if form == "status_change_notification_reply":
+        return 0x80C7, bytes([m % 2])
+    if form == "radio_status_report":
+        return 0xB0C8, bytes([m % 0x1C]) + _id(ids, 0)[:2]
+    if form == "unassigned_opcode":  # an opcode the ADK does not assign: carried through as opaque octets
+        return [0x7777, 0x0001, 0xFFFE, 0x5284][m % 4], _id(ids, 0) + blob + _id(ids, 1)
+    raise ValueError(form)
+
+
+RCP_FORMS = ["call_request", "call_reply", "repeater_broadcast_transmit_status", "broadcast_message_configuration_request",
+             "broadcast_message_configuration_reply", "radio_id_ip_query_request", "radio_id_query_reply", "radio_ip_query_reply",
+             "broadcast_status_configuration_request", "broadcast_status_configuration_reply", "send_talker_alias_request",
+             "send_talker_alias_reply", "zone_and_channel_operation_request", "zone_and_channel_operation_reply",
+             "status_change_notification_request", "status_change_notification_reply", "radio_status_report", "unassigned_opcode"]
+
+
+def enc_rcp(form: str, ids, m: int = 0, blob: bytes = b"", reliable: bool = False) -> bytes:
+    opcode, body = _rcp_body(form, ids, m, blob)
+    return enc_hdap(RCP_SERVICE, opcode.to_bytes(2, "little"), body, reliable=reliable, little_endian_length=True)
+
+
+LP_FORMS = ["standard_request", "standard_report"]
+
+
+def enc_lp(form: str, ids, m: int = 0, reliable: bool = False) -> bytes:
+    """request id = second id slot, radio ip = first id slot"""
+    if form == "standard_request":
+        return enc_hdap(LP_SERVICE, b"\xa0\x01", _id(ids, 1) + _id(ids, 0), reliable=reliable)
+    if form == "standard_report":
+        return enc_hdap(LP_SERVICE, b"\xa0\x02", _id(ids, 1) + _id(ids, 0) + [0, 6, 105][m % 3].to_bytes(2, "big") + _GPS[(m // 3) % len(_GPS)], reliable=reliable)
+    raise ValueError(form)
+
+
+TMP_FORMS = {"private_message": 0xA1, "private_message_ack": 0xA2, "group_message": 0xB1, "group_message_ack": 0xB2, "private_short_data": 0xAE,
+             "private_short_data_ack": 0xAF, "group_short_data": 0xBE, "group_short_data_ack": 0xBF,
+             "work_order_request": 0xAC, "work_order_reply": 0xAD, "work_order_report": 0xAA, "work_order_report_reply": 0xAB}
+
+
+def enc_tmp(form: str, ids, m: int = 0, blob: bytes = b"", option: Optional[bytes] = None, reliable: bool = False, confirmed: bool = False) -> bytes:
+    """Any TMP / SDMP service: body = [option length(2)] request id(4) destination(4) [source(4)] (text | short data | result) [option data];
+    destination = first id slot, source = second, request id = third (= first when fewer are given)"""
+    code = TMP_FORMS[form]
+    body = _id(ids, 2) + _id(ids, 0)
+    if form in ("group_message_ack", "group_short_data_ack"):
+        body += bytes([_TMP_RESULTS[m % len(_TMP_RESULTS)]])
+    else:
+        body += _id(ids, 1)
+        if form.endswith("_ack"):
+            body += bytes([_TMP_RESULTS[m % len(_TMP_RESULTS)]])
+        else:
+            body += blob
+    flags = (0x80 if confirmed else 0) | (0x40 if option is not None else 0)
+    if option is not None:
+        body = len(option).to_bytes(2, "big") + body + option
+    return enc_hdap(TMP_SERVICE, bytes([flags, code]), body, reliable=reliable)
